@@ -81,7 +81,44 @@ func c19LetterRange(p *load.Prog, r *oblig.Run) {
 			}
 		}
 	}
+	// ... or a range over a constant string of letters (for _, r := range "abc...z")
+	var alphabet map[int64]bool
+	if hi < lo {
+		for _, b := range emit.Blocks {
+			for _, ins := range b.Instrs {
+				rg, ok := ins.(*ssa.Range)
+				if !ok {
+					continue
+				}
+				if cs, ok := su.ConstString(rg.X); ok && cs != "" {
+					alphabet = map[int64]bool{}
+					for _, ch := range cs {
+						alphabet[int64(ch)] = true
+					}
+				}
+			}
+		}
+	}
 	o0 := r.Add("R19.g", "letters emitted by GetIndexLetters", p.Pos(emit.Pos()), "emitted letter set")
+	if alphabet != nil && len(symbols) > 0 {
+		// the contiguous hull of the alphabet must be entirely in it for the interval test below
+		first := true
+		for c := range alphabet {
+			if first || c < lo {
+				lo = c
+			}
+			if first || c > hi {
+				hi = c
+			}
+			first = false
+		}
+		for c := lo; c <= hi; c++ {
+			if !alphabet[c] {
+				o0.Unknown("the letters GetIndexLetters ranges over are not one contiguous range")
+				return
+			}
+		}
+	}
 	if hi < lo || len(symbols) == 0 {
 		o0.Unknown("cannot read the emitted letter set (a counting loop over a rune range and a symbol-letter lookup) from GetIndexLetters")
 		return
